@@ -26,6 +26,10 @@ func (u *Unit) evalCall(st *State, e *ast.CallExpr) Term {
 			return u.evalBuiltin(st, e, b.Name())
 		}
 	}
+	// function literal executed inline (immediately invoked, or a local closure that is only ever called)
+	if fl := u.inlineTarget(e); fl != nil {
+		return u.execLitInline(st, e, fl)
+	}
 	// resolve static callee
 	callee, recvExpr := u.staticCallee(e)
 	if callee != nil {
@@ -611,13 +615,18 @@ func (u *Unit) newMap(st *State, mt *types.Map) string {
 }
 
 func (u *Unit) mapLookup(st *State, m, k Term, mt *types.Map) (Term, string) {
+	v, present := u.mapLookupSpec(st, m, u.coerce(st, k, mt.Key()), mt)
+	u.assumeRange(st, v)
+	return v, present
+}
+
+// mapLookupSpec: lookup without side assumptions (usable under quantifiers in contracts).
+func (u *Unit) mapLookupSpec(st *State, m, k Term, mt *types.Map) (Term, string) {
 	hp, hv := u.mapHeaps(mt)
-	k = u.coerce(st, k, mt.Key())
 	present := fmt.Sprintf("(select (select %s %s) %s)", u.heapRead(st, hp), m.S, k.S)
 	present = and(not(eq(m.S, "0")), present)
 	val := fmt.Sprintf("(select (select %s %s) %s)", u.heapRead(st, hv), m.S, k.S)
 	v := Term{S: ite(present, val, u.zeroOf(mt.Elem()).S), T: mt.Elem()}
-	u.assumeRange(st, v)
 	return v, present
 }
 
@@ -732,6 +741,7 @@ func (u *Unit) assumeRangeIf(st *State, cond string, t Term) {
 // ---------- function calls ----------
 
 type callArgs struct {
+	raw     []Term           // arguments before conversion to the parameter types (an &x passed as `any` stays a pointer)
 	isig    *types.Signature // instantiated signature (generic callees)
 	recv    *Term
 	recvExp ast.Expr
@@ -779,8 +789,10 @@ func (u *Unit) evalArgs(st *State, e *ast.CallExpr, sig *types.Signature, recvEx
 				continue
 			}
 		}
-		v := u.evalAs(st, a, pt)
+		rawV := u.eval(st, a)
+		v := u.coerce(st, rawV, pt)
 		ca.args = append(ca.args, v)
+		ca.raw = append(ca.raw, rawV)
 		ca.argExps = append(ca.argExps, a)
 	}
 	if sig.Variadic() && !e.Ellipsis.IsValid() {
@@ -1150,16 +1162,20 @@ func (u *Unit) applyContract(st *State, e *ast.CallExpr, callee *types.Func, ct 
 		u.emit(st, "pre", fmt.Sprintf("nopanic(%s)#%d[%s]", calleeKey(callee), i, u.exprTextShort(e)), "callee "+calleeKey(callee)+" does not panic: not ("+r.Text+")", e.Pos(), g)
 		st.assume(g)
 	}
-	// frame
+	// frame (the callee may have allocated: bump the allocation counter first so that havoced cells may hold fresh refs)
+	u.bumpAlloc(st)
 	if ct.ModifiesAll {
 		u.havocAllHeaps(st)
 	} else {
 		for _, m := range ct.Modifies {
 			u.havocTarget(st, env, m)
 		}
+		if !declaresGhostFrame(ct) {
+			u.havocHeap(st, u.ghostHeap("consumed"))
+			u.havocHeap(st, u.ghostHeap("written"))
+		}
 	}
 	// results
-	u.bumpAlloc(st)
 	rs := u.freshResults(st, sig, "r_"+callee.Name())
 	if ct.Pure {
 		// a pure function: its results are functions of its argument values
@@ -1185,13 +1201,27 @@ func (u *Unit) applyContract(st *State, e *ast.CallExpr, callee *types.Func, ct 
 	}
 	env2 := &SpecEnv{u: u, st: st, old: pre, names: names, cs: cset, pkg: callee.Pkg(), calleeSig: sig}
 	for _, en := range ct.Ensures {
+		nerr := len(u.specErrors)
 		f := env2.evalBool(en.Expr)
+		if len(u.specErrors) > nerr {
+			// the clause names something that exists only inside the callee (a local): callers cannot use it
+			u.specErrors = u.specErrors[:nerr]
+			continue
+		}
 		st.assume(f)
 		u.recordLenHints(f)
+	}
+	// heap well-formedness for the references the clauses looked at: stored pointers/slices are allocated
+	for _, r := range env2.reads {
+		if !reBoundVar.MatchString(r.S) {
+			u.assumeRange(st, r)
+		}
 	}
 	u.calledContracts[calleeKeyFull(callee)] = true
 	return resultTerm(rs)
 }
+
+var reBoundVar = regexp.MustCompile(`_q[0-9]+`)
 
 var reLenHint = regexp.MustCompile(`\(= \(s\.len ([^ ()]+)\) (?:\(_ bv(\d+) 64\)|(\d+))\)`)
 
@@ -1269,6 +1299,23 @@ func calleeKeyFull(f *types.Func) string {
 }
 
 // havocTarget havocs what a modifies clause names: a slice's elements, a pointer's cell, a map.
+// declaresGhostFrame: the contract says which ghost byte counters the function advances (modifies written(x) / consumed(x)).
+// Without such a clause nothing is promised about the counters: callers forget them and no ghost-frame obligation is generated.
+func declaresGhostFrame(ct *FuncContract) bool {
+	if ct == nil {
+		return false
+	}
+	if ct.Options["ghost-frame"] {
+		return true
+	}
+	for _, m := range ct.Modifies {
+		if _, _, ok := ghostModifies(m); ok {
+			return true
+		}
+	}
+	return false
+}
+
 func ghostModifies(m Clause) (string, ast.Expr, bool) {
 	if c, ok := ast.Unparen(m.Expr).(*ast.CallExpr); ok {
 		if id, ok := c.Fun.(*ast.Ident); ok && (id.Name == "written" || id.Name == "consumed") && len(c.Args) == 1 {
